@@ -3,9 +3,9 @@
 #   tools/benign_eval.sh <Bk> <n> <tier> <prop> [<prop>...]
 set -u
 id="$1"; n="$2"; tier="$3"; shift 3
-src="/tmp/wt2/$id/benign/$n"
-dst="/verif/benign/$id-$n"
-wt="/tmp/mut/benign-$id-$n"
+src="${BENIGN_BASE:-/tmp/wt2}/$id/benign/$n"
+dst="/verif/benign/${BENIGN_PREFIX:-}$id-$n"
+wt="/tmp/mut/benign-${BENIGN_PREFIX:-}$id-$n"
 export CARGO_TARGET_DIR=/tmp/mut/target-shared CARGO_NET_OFFLINE=true
 mkdir -p /tmp/mut "$dst"
 cp "$src"/* "$dst"/ 2>/dev/null
@@ -20,6 +20,6 @@ passed=$(echo "$t" | grep -E "^test result" | sed -E 's/.* ([0-9]+) passed.*/\1/
 failed=$(echo "$t" | grep -E "^test result" | sed -E 's/.* ([0-9]+) failed.*/\1/' | paste -sd+ | bc)
 echo "suite_with_patch: passed=$passed failed=$failed" >> "$res"
 git -C /repo worktree remove --force "$wt"
-out=$(/verif/tools/mutant.sh "b-$id-$n" "$src/patch.diff" "$tier" "$@" 2>&1)
+out=$(/verif/tools/mutant.sh "b-${BENIGN_PREFIX:-}$id-$n" "$src/patch.diff" "$tier" "$@" 2>&1)
 echo "$out" | grep -E "^== |^VIOLATION|^  kind:|^  detail:|^INCONCLUSIVE|PATCH" | cut -c1-300 >> "$res"
 cat "$res"
